@@ -36,6 +36,7 @@ def run(ctx):
     facts = ctx.facts()
     fields_aad(ctx, facts)
     bind(ctx, facts)
+    key_lookup(ctx, facts)
     totality(ctx, facts)
     ctx.assume("HPKE / AES-GCM authenticity is the library's; GenericArray::from_slice lengths agree with the accessor ranges because both are the same typenum sums (type-level, not re-derived)")
 
@@ -119,6 +120,45 @@ def lossy_step(e):
     if k == "un":
         return "operator " + str(e[1])
     return k
+
+
+# ---------------------------------------------------------------------------------------------
+def key_lookup(ctx, facts):
+    """The key identifier of a record is not covered by HPKE; the only thing that makes a wrong key id fail is the
+    registry answering None / another key for it.  Every registry lookup therefore has to be the indexed one."""
+    ctx.rule("KEY-lookup: every `private_key` / `public_key` impl of the key registries returns Option::map(self.key(key_id), projection) - its only source of keys is the lookup by the requested id - and KeyRegistry::key returns Some(&keys[id]) exactly on the edge id < keys.len()")
+    n = 0
+    for p, b in sorted(facts.bodies.items()):
+        if not (p.startswith("<hpke::registry::KeyRegistry<") and re.search(r"Registry>::(private_key|public_key)$", p)):
+            continue
+        n += 1
+        ctx.count(bodies=1)
+        e = flow.strip_casts(flow.expr_of(b, {"cp": [0]}, max_depth=20))
+        inner = e[2][0] if e[0] == "call" and e[1].endswith("Option::<T>::map") and e[2] else e
+        ok = inner == ("call", "hpke::registry::KeyRegistry::<K>::key", (("arg", 1), ("arg", 2)))
+        somes = [bb for bb, idx, st in b.iter_assigns() if st["r"]["k"] == "agg" and st["r"].get("adt") == "std::option::Option" and st["r"].get("vn") == "Some"]
+        ok = ok and not somes
+        name = re.sub(r"\b(\w+::)+", "", p)
+        ctx.ob("KEY-lookup", name, ok, "the key is the one stored under the requested id" if ok else "this registry can hand out a key that was not looked up by the requested key id (e.g. the only key for every id): a record whose key-id byte was altered still decrypts, although that byte is not authenticated by HPKE", site_of(b, somes[0]) if somes else site_of(b))
+    ctx.floor("KEY-lookup", "registry lookup impls", n, 4)
+    k = facts.bodies.get("hpke::registry::KeyRegistry::<K>::key")
+    if k is None:
+        ctx.missing("KEY-lookup", "KeyRegistry::key")
+        return
+    ctx.count(bodies=1)
+    dom = k.dominators()
+    lt = [(tgt, f) for tgt, f in flow.edge_guards(k) if f[0] == "Lt" and flow.strip_casts(f[1]) == ("arg", 2) and "::len" in str(f[2]) and "keys" in str(f[2])]
+    somes = [(bb, flow.expr_of(k, st["r"]["ops"][0], max_depth=20)) for bb, idx, st in k.iter_assigns() if st["r"]["k"] == "agg" and st["r"].get("adt") == "std::option::Option" and st["r"].get("vn") == "Some"]
+    ok = bool(lt) and bool(somes) and all(flow.dominates(dom, lt[0][0], bb) for bb, e in somes)
+    idx_ok = False
+    for bb in k.live_blocks():
+        t = k.term(bb)
+        if t["k"] == "assert" and t["ak"] == "BoundsCheck":
+            idx_ok = flow.strip_casts(flow.expr_of(k, t["ops"][1])) == ("arg", 2) or "('arg', 2)" in str(flow.expr_of(k, t["ops"][1]))
+    for bb, t in k.calls():
+        if (F.callee(t)[0] or "").endswith("Index::index") or re.search(r"<impl \[T\]>::get$", F.callee(t)[0] or ""):
+            idx_ok = idx_ok or "('arg', 2)" in str(flow.expr_of(k, t["args"][1]))
+    ctx.ob("KEY-lookup", "KeyRegistry::key:indexed-by-id", ok and idx_ok, "Some(&keys[id]) iff id < len" if ok and idx_ok else "KeyRegistry::key does not return exactly the key stored at the requested index (or returns Some outside id < len)", site_of(k))
 
 
 # ---------------------------------------------------------------------------------------------
